@@ -91,8 +91,17 @@ func (c *verifPacketConn) WriteTo(p []byte, addr net.Addr) (int, error) {
 		cp = make([]byte, len(p))
 		copy(cp, p)
 	}
+	c.mu.Lock()
 	c.writes = append(c.writes, verifWrite{cp, addr})
+	c.mu.Unlock()
 	return len(p), nil
+}
+
+// Writes returns what was written so far (synchronised with concurrent writers)
+func (c *verifPacketConn) Writes() []verifWrite {
+	c.mu.Lock()
+	defer c.mu.Unlock()
+	return append([]verifWrite{}, c.writes...)
 }
 
 func (c *verifPacketConn) Close() error { c.closed++; return nil }
@@ -180,6 +189,9 @@ type verifStreamConn struct {
 	bytesRead   int
 	readCalls   int
 	readsAfterEnd int
+	writesAfterClose int
+	bulk          int // after the script: this many more bytes arrive (content irrelevant)
+	onRead        func(call int) // optional hook run at the start of each Read
 	glog          *[]string // optional cross-connection event log
 }
 
@@ -195,6 +207,9 @@ func verifEOF() error { return verifIOEOF }
 func (c *verifStreamConn) Read(b []byte) (int, error) {
 	c.readCalls++
 	c.ev("Read")
+	if c.onRead != nil {
+		c.onRead(c.readCalls)
+	}
 	for c.readPos < len(c.reads) {
 		r := &c.reads[c.readPos]
 		if r.err != nil {
@@ -215,6 +230,15 @@ func (c *verifStreamConn) Read(b []byte) (int, error) {
 		c.bytesRead += n
 		return n, nil
 	}
+	if c.bulk > 0 {
+		n := len(b)
+		if n > c.bulk {
+			n = c.bulk
+		}
+		c.bulk -= n
+		c.bytesRead += n
+		return n, nil
+	}
 	c.readsAfterEnd++
 	if c.glog != nil {
 		*c.glog = append(*c.glog, c.name+":ReadEnd")
@@ -230,6 +254,10 @@ func (c *verifStreamConn) Write(b []byte) (int, error) {
 	c.ev("Write")
 	if c.writeErr != nil {
 		return 0, c.writeErr
+	}
+	if c.closed > 0 || c.closedWrite > 0 {
+		c.writesAfterClose++
+		return 0, net.ErrClosed
 	}
 	c.written = append(c.written, b...)
 	return len(b), nil
@@ -279,11 +307,15 @@ type verifTCPMetrics struct {
 	probes        []string
 	probeBytes    []int64
 	order         []string
+	onAuth        func() // optional hook: something else happens while this connection is between authentication and its first relayed byte
 }
 
 func (m *verifTCPMetrics) AddAuthenticated(accessKey string) {
 	m.authenticated = append(m.authenticated, accessKey)
 	m.order = append(m.order, "auth")
+	if m.onAuth != nil {
+		m.onAuth()
+	}
 }
 func (m *verifTCPMetrics) AddClosed(status string, data verifProxyMetrics, duration time.Duration) {
 	m.closed = append(m.closed, status)
@@ -309,4 +341,8 @@ func contextBackground() context.Context { return context.Background() }
 
 func onetNewConnectionError(status, msg string, cause error) error {
 	return onet.NewConnectionError(status, msg, cause)
+}
+
+func contextWithCancel() (context.Context, context.CancelFunc) {
+	return context.WithCancel(context.Background())
 }
